@@ -1,12 +1,17 @@
 #!/bin/bash
-# usage: tools/seedbatch.sh SRC_DIR RESULT_DIR PROP...   (runs the 1..n seeded changes of each property sequentially, properties in parallel)
-SRC=$1; RES=$2; shift 2
-mkdir -p $RES
-for p in "$@"; do
-  ( for d in $SRC/$p-*; do
-      b=$(basename $d); [ -f $RES/$b.json ] && continue
+# usage: tools/seedbatch.sh [--force] ID...   e.g. tools/seedbatch.sh C05-1 C05-2  (ids under /verif/seeded)
+# Runs tools/seedtest.py for each id; ids of the same property sequentially, different properties in parallel (6 at a time).
+# The result line is stored as seeded/<id>/result.json.
+FORCE=0; [ "$1" = "--force" ] && { FORCE=1; shift; }
+cd /verif
+props=$(for i in "$@"; do echo ${i%%-*}; done | sort -u)
+for p in $props; do
+  ( for i in "$@"; do
+      [ "${i%%-*}" = "$p" ] || continue
+      d=seeded/$i
       [ -f $d/patch.diff ] || continue
-      /verif/tools/seedtest.py $d 2>&1 | tail -1 > $RES/$b.json
+      [ $FORCE = 0 ] && [ -f $d/result.json ] && continue
+      tools/seedtest.py $d 2>&1 | tail -1 > $d/result.json.tmp && mv $d/result.json.tmp $d/result.json
     done ) &
   while (( $(jobs -r | wc -l) >= 6 )); do wait -n; done
 done
